@@ -53,30 +53,31 @@ var Patterns = []string{
 
 // Opts steers the random schema generator.
 type Opts struct {
-	MaxDepth     int
-	Hazard       bool // allow triggers of recorded defects
-	NoFormats    bool
-	NoEnums      bool
-	NoDefaults   bool
-	NoAddProps   bool
-	NoNullable   bool
-	NoRefs       bool
-	NoCompose    bool // allOf/anyOf
-	NoNestArr    bool
-	IntLimits    bool               // use 8/16/32/64-bit limits as integer bounds
-	Descs        bool               // attach descriptions/titles
-	YAMLSafe     bool               // avoid values that are hazardous under the YAML path
-	W            map[string]float64 // weight overrides by subject kind
-	PNullable    float64            // probability of making a typed subject nullable (default 0.15)
-	PDefault     float64            // probability of a default on an optional property (default 0.25)
-	PAddProps    float64            // probability of additionalProperties on an object (default 0.2)
-	DescPool     []string           // description texts (with Descs)
-	Titles       []string           // title texts
-	Names        []string           // property-name pool (default: plain ASCII names)
-	AnyBranch    bool               // anyOf/allOf branches may also be map objects, arrays, primitives or null
-	AddPropsTrue bool               // objects may say additionalProperties: true
-	NullType     bool               // properties/items of type "null"
-	RootKinds    bool               // the root may be an array, a scalar or an enum instead of an object
+	MaxDepth      int
+	Hazard        bool // allow triggers of recorded defects
+	NoFormats     bool
+	NoEnums       bool
+	NoDefaults    bool
+	NoRefDefaults bool // no default keyword next to a $ref
+	NoAddProps    bool
+	NoNullable    bool
+	NoRefs        bool
+	NoCompose     bool // allOf/anyOf
+	NoNestArr     bool
+	IntLimits     bool               // use 8/16/32/64-bit limits as integer bounds
+	Descs         bool               // attach descriptions/titles
+	YAMLSafe      bool               // avoid values that are hazardous under the YAML path
+	W             map[string]float64 // weight overrides by subject kind
+	PNullable     float64            // probability of making a typed subject nullable (default 0.15)
+	PDefault      float64            // probability of a default on an optional property (default 0.25)
+	PAddProps     float64            // probability of additionalProperties on an object (default 0.2)
+	DescPool      []string           // description texts (with Descs)
+	Titles        []string           // title texts
+	Names         []string           // property-name pool (default: plain ASCII names)
+	AnyBranch     bool               // anyOf/allOf branches may also be map objects, arrays, primitives or null
+	AddPropsTrue  bool               // objects may say additionalProperties: true
+	NullType      bool               // properties/items of type "null"
+	RootKinds     bool               // the root may be an array, a scalar or an enum instead of an object
 }
 
 // Gen is a random schema generator.
@@ -571,6 +572,30 @@ func (g *Gen) MapObject(depth int) *Schema {
 // addDefault attaches a default valid for p where the harness knows how to make one.
 func (g *Gen) addDefault(p *Schema) {
 	r := g.R
+	if p.Ref != "" && p.Target != nil && !g.O.NoRefDefaults {
+		// a default stated where a named scalar / enum / scalar-array definition is referred to
+		tgt := p.Target
+		if tgt.Ref == "" && len(tgt.AllOf) == 0 && len(tgt.AnyOf) == 0 && tgt.Format == "" && r.Chance(0.6) {
+			tt, nullable, ok := tgt.NonNullType()
+			simple := ok && !nullable && (tt == "string" || tt == "integer" || tt == "number" || tt == "boolean")
+			if ok && !nullable && tt == "array" && tgt.Items != nil && !tgt.HasEnum {
+				it, inul, iok := tgt.Items.NonNullType()
+				simple = iok && !inul && !tgt.Items.HasEnum && tgt.Items.Ref == "" && tgt.Items.Format == "" && (it == "string" || it == "integer" || it == "number" || it == "boolean")
+			}
+			if tgt.HasEnum {
+				simple = len(tgt.Types) == 1 && (tgt.Types[0] == "string" || tgt.Types[0] == "integer")
+			}
+			if simple {
+				tmp := tgt.Clone()
+				tmp.HasDefault, tmp.Default = false, nil
+				g.addDefault(tmp)
+				if tmp.HasDefault {
+					p.Default, p.HasDefault = tmp.Default, true
+				}
+			}
+		}
+		return
+	}
 	if p.Ref != "" || len(p.AllOf) > 0 || len(p.AnyOf) > 0 {
 		return
 	}
